@@ -65,12 +65,13 @@ let typed_field (r : result) : string =
   " l=" ^ String.concat "," (List.map (fun v -> read_long (String.concat "" (List.map (fun b -> String.make 1 (Char.chr (int_of_byte b))) v))) vals)
 
 let model = function
-  | (("parse" | "parsel") as kind) :: dw :: ew :: argvs when argvs <> [] ->
+  | (("parse" | "parsel" | "hist") as kind) :: dw :: ew :: argvs when argvs <> [] ->
     let d = parse_decl dw and e = parse_env ew in
     let (_, rs) = history d e (init_st d) (List.map strs_of_wire argvs) in
-    String.concat " | " (List.map (fun r -> match r with
+    String.concat " | " (List.map2 (fun r aw -> match r with
         | Ok res when kind = "parsel" -> obs_result res ^ typed_field res
-        | _ -> obs_res r) rs)
+        | _ when kind = "hist" -> obs_res r ^ " # " ^ obs_res (snd (parse d e (init_st d) (strs_of_wire aw)))
+        | _ -> obs_res r) rs argvs)
   | _ -> "BADCASE"
 
 (* the oracle judges each call's observation against the SPEC (explain >>= wf_items >>= assignment) of that
@@ -81,21 +82,42 @@ let rec split_obs (s : string) : string list =
   match Str_split.find_sub s " | " with
   | None -> [s]
   | Some i -> String.sub s 0 i :: split_obs (String.sub s (i + 3) (String.length s - i - 3))
+let starts s p = String.length s >= String.length p && String.sub s 0 (String.length p) = p
+let field (o : string) (k : string) : string =
+  (* value of " k=..." inside an OK line *)
+  let rec go = function [] -> "" | w :: r -> if starts w (k ^ "=") then String.sub w (String.length k + 1) (String.length w - String.length k - 1) else go r in
+  go (String.split_on_char ' ' o)
+let is_okline o = starts o "OK "
 let oracle case obs =
   match case with
-  | (("parse" | "parsel") as kind) :: dw :: ew :: argvs when argvs <> [] ->
+  | (("parse" | "parsel" | "hist") as kind) :: dw :: ew :: argvs when argvs <> [] ->
     let d = parse_decl dw and e = parse_env ew in
     let obss = split_obs obs in
     List.length obss = List.length argvs &&
     List.for_all2 (fun aw o ->
-        let sp = spec d e (strs_of_wire aw) in
+        let args = strs_of_wire aw in
+        let sp = spec d e args in
         let expect = match sp with Ok res when kind = "parsel" -> obs_result res ^ typed_field res | _ -> obs_res sp in
+        (* for history cases the driver appends " # <result of a freshly built identical parser>" *)
+        let (o, fresh) = match Str_split.find_sub o " # " with
+          | Some i -> (String.sub o 0 i, Some (String.sub o (i + 3) (String.length o - i - 3)))
+          | None -> (o, None) in
+        let kinds_ok = o = "USER" || o = "DEV" || is_okline o in
         match prop with
-        | "C01" -> (* success implies the vector is accounted for; failure must be the user-input error *)
-          if String.length o >= 2 && String.sub o 0 2 = "OK" then o = expect
-          else o = "USER" || (o = "DEV" && expect = "DEV")
-        | "C04" -> (o = "USER" && expect = "USER") || (o = "DEV" && expect = "DEV")
-                   || (String.length o >= 3 && String.sub o 0 3 = "OK " && String.length expect >= 3 && String.sub expect 0 3 = "OK ")
+        | "C01" -> (* success implies the vector is accounted for by the result; anything else must be the user-input error *)
+          if is_okline o then o = expect else o = "USER" || (o = "DEV" && expect = "DEV")
+        | "C02" -> (* a legal spelling parses to exactly the assignment it spells; the property is silent on other vectors *)
+          (match sp with Ok _ -> o = expect | Err _ -> kinds_ok)
+        | "C03" -> (* values, counts and provided flags (source ranking); positionals are not this property's concern *)
+          kinds_ok && (match sp with
+            | Ok _ -> is_okline o && List.for_all (fun k -> field o k = field expect k) ["o"; "m"; "t"; "v"]
+            | Err _ -> true) && (expect <> "USER" || o = "USER" || not (consistent d))
+        | "C04" -> (o = "USER" && expect = "USER") || (o = "DEV" && expect = "DEV") || (is_okline o && is_okline expect)
+        | "C11" -> kinds_ok && (match sp with Ok _ -> is_okline o && field o "t" = field expect "t" && field o "v" = field expect "v"
+                                              | Err _ -> o = expect)
+        | "C12" -> kinds_ok && (match sp with Ok _ -> is_okline o && field o "p" = field expect "p" && field o "x" = field expect "x"
+                                              | Err _ -> o = expect)
+        | "C14" -> (match fresh with Some f -> o = f | None -> o = expect)
         | _ -> o = expect) argvs obss
   | _ -> false
 let () = run_driver model oracle
